@@ -130,9 +130,11 @@ theorem service_closed (cap : Nat → Nat) (chain : Nat → List Nat) (closed : 
           · exact List.mem_cons_of_mem _ (ih _ h)
           · exact ih used h
 
-/-- a queued request whose limiter's cap has meanwhile been lowered below its amount fails at the next tick -/
+/-- a queued request whose amount is meanwhile above the smallest capacity along its chain (a `SetCap` on its limiter or
+    on an ancestor) fails at the next tick -/
 theorem service_toobig (cap : Nat → Nat) (chain : Nat → List Nat) (closed : Nat → Bool) (p : Nat)
-    (used : Nat → Nat) (w : List Req) (r : Req) (hr : r ∈ w) (hc : closed r.lim = false) (hb : r.amt > cap r.lim) :
+    (used : Nat → Nat) (w : List Req) (r : Req) (hr : r ∈ w) (hc : closed r.lim = false)
+    (hb : r.amt > effCap cap (chain r.lim) (cap r.lim)) :
     (r.id, Ans.errCap) ∈ (service cap chain closed p used w).answers := by
   induction w generalizing used with
   | nil => cases hr
@@ -165,7 +167,9 @@ theorem head_served {c : Nat} {s : S} (h : Reachable c s) (r : Req) (rest : List
     rw [fits_iff]; intro x hx
     simp only [hres x hx, if_true]
     have := hfit x hx; omega
-  have hcap : ¬ r.amt > s.cap r.lim := by have := hfit _ (t.self _ hl); omega
+  have hcap : ¬ r.amt > effCap s.cap (s.chain r.lim) (s.cap r.lim) := by
+    have := (le_effCap_iff s.cap (s.chain r.lim) (s.cap r.lim) r.amt).mpr ⟨hfit _ (t.self _ hl), hfit⟩
+    omega
   show (r.id, Ans.ok) ∈ (service s.cap s.chain s.closed (s.ticks + 1) (fun x => if resets s x then 0 else s.used x)
     s.waiting).answers ++ s.answered
   rw [hw]
